@@ -164,12 +164,28 @@ namespace xsimd
                                  self, other);
         }
 
+        namespace detail
+        {
+            // N - n, except for n == 0 where the complementary shift must be 0 as well:
+            // a shift by the full lane width is not a valid shift count
+            template <class T, class A>
+            XSIMD_INLINE batch<T, A> rot_complement(T N, batch<T, A> const& n) noexcept
+            {
+                return select(n == batch<T, A>(T(0)), batch<T, A>(T(0)), batch<T, A>(N) - n);
+            }
+            template <class T, class STy>
+            XSIMD_INLINE STy rot_complement(T N, STy n) noexcept
+            {
+                return n ? static_cast<STy>(N - n) : STy(0);
+            }
+        }
+
         // rotl
         template <class A, class T, class STy>
         XSIMD_INLINE batch<T, A> rotl(batch<T, A> const& self, STy other, requires_arch<generic>) noexcept
         {
             constexpr auto N = std::numeric_limits<T>::digits;
-            return (self << other) | (self >> (N - other));
+            return (self << other) | (self >> detail::rot_complement(T(N), other));
         }
 
         // rotr
@@ -177,7 +193,7 @@ namespace xsimd
         XSIMD_INLINE batch<T, A> rotr(batch<T, A> const& self, STy other, requires_arch<generic>) noexcept
         {
             constexpr auto N = std::numeric_limits<T>::digits;
-            return (self >> other) | (self << (N - other));
+            return (self >> other) | (self << detail::rot_complement(T(N), other));
         }
 
         // sadd
